@@ -208,10 +208,7 @@ func (g *schemaGen) structT(depth int) (tyJ, int) {
 		// "first absent, second present" has no representation at all (a limitation of the strategy, not something the
 		// property speaks about): at most the last field is optional.
 		if r.Intn(2) == 0 {
-			firstOptional = nf - 1
-			if firstOptional == 0 {
-				firstOptional = nf
-			}
+			firstOptional = nf - 1 // (a single-field tuple whose only field is optional has the empty list as a value)
 		}
 	}
 	for i, p := range perm {
